@@ -10,7 +10,7 @@
 From Coq Require Import List NArith.
 From Coq Require Import Permutation.
 From Jamm Require Import Bytes Codec Tree Spec Cursor SearchFacts CursorFacts SeekFacts CodecFacts.
-From Jamm Require Engine EngineFacts EngineMergeFacts EngineModifyFacts.
+From Jamm Require Engine EngineAbs SpecPath EngineFacts EngineMergeFacts EngineModifyFacts EnginePathFacts EngineSpillFacts SpecPathFacts.
 Import ListNotations.
 
 Theorem C01_partial_get : forall t k, wf_tree t = true ->
@@ -108,3 +108,52 @@ Theorem C01_partial_delete_refines : forall d b l k s b' s',
     EngineModifyFacts.same_but_seqc s s'.
 Proof. exact EngineModifyFacts.b_delete_refines. Qed.
 Print Assumptions C01_partial_delete_refines.
+
+(* ---- write half, transaction level (before commit): the whole sequence of path-addressed operations of a write
+   transaction -- nested buckets opened, created and deleted on the way -- leaves an overlay whose meaning is the
+   functional semantics sem_tx of those operations applied to the committed meaning abs_db; run_tx is then exactly
+   `commit` of that overlay. Side condition op_ok: paths shorter than 8, deleted trees below 100000 pages (the model's
+   fuels; without it the statement is false: C01_unrestricted_statement_refuted). ---- *)
+Theorem C01_partial_ops_refine : forall (st : Engine.db) (ops : list Engine.op) (ord : list Bytes.bytes),
+  EnginePathFacts.db_pages_wf st -> Forall (EnginePathFacts.op_ok (Engine.d_disk st)) ops ->
+  exists (root' : Engine.bucket) (s' : Engine.txs),
+    Engine.run_tx st ops ord = Engine.commit st root' s' ord /\
+    EnginePathFacts.ovl_wf (Engine.d_disk st) root' /\
+    EnginePathFacts.OvlAbs (Engine.d_disk st) root' (EngineAbs.sem_tx ops (EngineAbs.abs_db st)) /\
+    EnginePathFacts.tx_frees (Engine.begin_w st) s'.
+Proof. exact EnginePathFacts.run_tx_ops. Qed.
+Print Assumptions C01_partial_ops_refine.
+
+Theorem C01_unrestricted_statement_refuted : forall db_wf : Engine.db -> Prop,
+  db_wf (Engine.init_db 4096) -> ~ EngineAbs.run_tx_refines_unrestricted_stmt db_wf.
+Proof. exact EnginePathFacts.run_tx_refines_stmt_false. Qed.
+Print Assumptions C01_unrestricted_statement_refuted.
+
+(* ---- the functional semantics IS the handle-based reference machine the library is compared with, call by call ---- *)
+Theorem C01_reference_machine_is_sem_tx : forall (c : Spec.snode) (ops : list Engine.op), SpecPathFacts.wf c ->
+  Spec.strip (Spec.t_root (SpecPath.p_tx (fold_left SpecPath.path_step ops (SpecPath.pinit c)))) =
+  EngineAbs.sem_tx ops (Spec.strip c).
+Proof. exact SpecPathFacts.path_machine_plain. Qed.
+Print Assumptions C01_reference_machine_is_sem_tx.
+
+(* ---- spill: writing a well-formed overlay tree out (split, fresh pages, new root levels) stores exactly the entries
+   the transaction saw, on pages that were free, without touching any page it keeps; stated against ANY later write
+   set w' of the same transaction that agrees on the pages written here ---- *)
+Theorem C01_partial_spill_root : forall (fuel : nat) (d : Engine.disk) (keep live : list N) (f : nat)
+    (n : Engine.node) (s : Engine.txs) (p : N) (s' : Engine.txs),
+  EngineSpillFacts.fresh_inv live s ->
+  Engine.n_data n = Engine.Leaves nil \/ EngineSpillFacts.swf fuel d keep None None n ->
+  Engine.spill_root f n s = Engine.Ok (p, s') ->
+  exists (alloc dead good : list N) (lv : nat),
+    EngineSpillFacts.frame live s s' alloc dead /\
+    (forall q : N, In q good -> In q alloc) /\ In p good /\ (lv <= f)%nat /\
+    (forall x : N, EngineSpillFacts.old_run n x -> In x dead) /\
+    (forall L : list N, (forall x : N, In x L -> In x live) -> EngineSpillFacts.old_in L n ->
+       forall x : N, In x dead -> (In x L \/ In x alloc) /\ ~ In x good) /\
+    (forall (w' : list (N * (N * Engine.ndata))) (P : N),
+       EngineSpillFacts.wr_agree good (Engine.wr s') w' ->
+       (forall x : N, In x keep -> EngineSpillFacts.wr_get w' x = None) ->
+       forall F : nat, (lv + EngineSpillFacts.ndepth n + fuel <= F)%nat ->
+       EngineAbs.page_ents F (EngineSpillFacts.apply_wr w' P d) p = EngineMergeFacts.view_leaves fuel d n).
+Proof. exact EngineSpillFacts.spill_root_spec. Qed.
+Print Assumptions C01_partial_spill_root.
